@@ -117,7 +117,7 @@ theorem rebIn_of_tree {t : Tree K V} {n c index d : Nat} {i : Inner K (Node K V 
   · obtain ⟨sh, hl, hlt⟩ := hsmall
     rw [hlc] at hl
     cases hl
-    rw [count_eq]; exact hlt
+    rw [count_eqD]; exact hlt
   · intro j k hk hne
     have hkm : k ∈ i.kids := List.mem_of_getElem? hk
     have := hok.occ (Node.id k, shallow k) (look_mem (hklook k hkm))
